@@ -1,7 +1,7 @@
 #!/usr/bin/env bash
 # tools/keep_seed.sh <ID> <a|b> : copy a verified seeded change into /verif/seeded/<ID><v>/
 set -eu
-ID="$1"; V="$2"; O=/tmp/mut/$ID.out/$V; D=/verif/seeded/${ID}${V}
+ID="$1"; V="$2"; T="${3:-$2}"; O=/tmp/mut/$ID.out/$V; D=/verif/seeded/${ID}${T}
 [ "$(jq -r .ok "$O/verified.json")" = true ] || { echo "$ID$V not verified"; exit 1; }
 mkdir -p "$D"
 cp "$O/patch.diff" "$O/demo.diff" "$D/"
